@@ -81,9 +81,15 @@ def affectedOp (order : List String) (wl : List (String × List String)) (r : RO
     | none => []
   | _ => []
 
-def affectedKw (order : List String) (wl : List (String × List String)) : CKw → List String
-  | .ops _ rs => rs.flatMap (affectedOp order wl)
-  | _ => []
+/-- The wells the handlers of a record list report, each record looked at in the state its
+handler sees (well order and well lists may change inside the body). -/
+def affOps (k : Consts) (s : State) : List ROp → List String
+  | [] => []
+  | r :: rs =>
+    affectedOp (names s.p.wells) s.p.wlists r ++
+      (match stepR k [] s r with
+       | .ok s' => affOps k s' rs
+       | .error _ => [])
 
 /-- The body's handlers, run directly (no ACTIONX collection: `for kw in action: handleKeyword`). -/
 def runBody (k : Consts) (s : State) : List CKw → Except Err State
@@ -92,6 +98,16 @@ def runBody (k : Consts) (s : State) : List CKw → Except Err State
     match handle k [] s kw with
     | .error e => .error e
     | .ok s' => runBody k s' r
+
+def affBody (k : Consts) (s : State) : List CKw → List String
+  | [] => []
+  | kw :: r =>
+    (match kw with
+     | .ops _ rs => affOps k s rs
+     | _ => []) ++
+      (match handle k [] s kw with
+       | .ok s' => affBody k s' r
+       | .error _ => [])
 
 def appendAt (bs : List (List CKw)) (n : Nat) (body : List CKw) : List (List CKw) :=
   bs.modify n (· ++ body)
@@ -106,7 +122,7 @@ def applyAtState (k : Consts) (sn : State) (body : List CKw) (W : List String) :
     match runBody k sn body' with
     | .error e => .error e
     | .ok s1 =>
-      let aff := body'.flatMap (affectedKw order sn.p.wlists)
+      let aff := affBody k sn body'
       .ok { closeBlock s1 with mark := if aff.isEmpty then sn.mark else sn.mark ++ aff }
 
 /-- `Schedule::applyAction(n, action, matches)` on (stored blocks, snapshots). -/
